@@ -20,6 +20,7 @@ import (
 	"fmt"
 	"io"
 	"regexp"
+	"sort"
 	"strconv"
 	"strings"
 
@@ -308,8 +309,14 @@ func (f *containerFactory) FromMap(in map[string]interface{}) ContainerBuilder {
 
 func (f *containerFactory) FromProperties(in map[string]interface{}) ContainerBuilder {
 	b := f.Container()
-	for k, v := range in {
-		b.AddValueAt(k, LeafNode(v))
+	// visit keys in sorted order so that result is deterministic for conflicting keys (a, a.b)
+	keys := make([]string, 0, len(in))
+	for k := range in {
+		keys = append(keys, k)
+	}
+	sort.Strings(keys)
+	for _, k := range keys {
+		b.AddValueAt(k, LeafNode(in[k]))
 	}
 	return b
 }
